@@ -436,6 +436,14 @@ Definition f_pop (h : heap) (v : mvalue) : mres (heap * mvalue * mvalue) :=
   | _ => MIll
   end.
 
+(* ArrayBuiltin::reverse = slice::reverse: in place, no allocation, nothing freed *)
+Definition f_rev (h : heap) (v : mvalue) : mres (heap * mvalue * unit) :=
+  match v with
+  | MArr r a sid cap items =>
+      if store_live h r a sid then MOk (h, MArr r a sid cap (rev items), tt) else MFault
+  | _ => MIll
+  end.
+
 (* ---------- environment ---------- *)
 Definition scope := list (nat * mvalue).         (* newest binding first *)
 
@@ -519,7 +527,8 @@ Inductive op :=
 | OShout
 | OPushScope | OPopScope
 | OCallBegin | OCallBind (params : list nat) | OCallEnd
-| OLoopIter | OLoopIterEnd | OLoopExit.
+| OLoopIter | OLoopIterEnd | OLoopExit
+| OReverse (x : nat) (path : list nat).   (* ArrayBuiltin::reverse: the Vec is permuted in place (added with MemEval) *)
 
 Definition str_bytes (h : heap) (v : mvalue) : mres (list Z) :=
   match v with
@@ -778,6 +787,16 @@ Definition step (c : cfg) (st : mstate) (o : op) : mres mstate :=
           else MIll
       | [] => MIll
       end
+  | OReverse x path =>
+      match env_find x (m_env st) with
+      | Some root =>
+          mbind (modify_at f_rev path h root) (fun '(h2, root', _) =>
+            match env_set x root' (m_env st) with
+            | Some e' => MOk (mkSt h2 e' (m_out st) (m_tmps st) (m_ctl st))
+            | None => MIll
+            end)
+      | None => MIll
+      end
   end.
 
 Fixpoint run (c : cfg) (st : mstate) (ops : list op) : mres mstate :=
@@ -837,6 +856,9 @@ Definition af_pop (v : value) : option (value * value) :=
       end
   | _ => None
   end.
+
+Definition af_rev (v : value) : option (value * unit) :=
+  match v with VArr items => Some (VArr (rev items), tt) | _ => None end.
 
 Definition afloor_of (st : astate) : nat :=
   match a_ctl st with [] => 0 | c :: _ => ac_floor c end.
@@ -1013,6 +1035,19 @@ Definition astep (st : astate) (o : op) : option astate :=
             Some (mkASt (a_env st) (a_out st) (a_tmps st ++ ac_saved cr) ctl')
           else None
       | [] => None
+      end
+  | OReverse x path =>
+      match aenv_find x (a_env st) with
+      | Some root =>
+          match amodify_at af_rev path root with
+          | Some (root', _) =>
+              match aenv_set x root' (a_env st) with
+              | Some e' => Some (mkASt e' (a_out st) (a_tmps st) (a_ctl st))
+              | None => None
+              end
+          | None => None
+          end
+      | None => None
       end
   end.
 
